@@ -78,18 +78,19 @@ m = re.search(r"let offset = (\d+) \+ 4 \* difat_index as u64;", al)
 if not m: sys.exit("gen_consts: header DIFAT array offset not found")
 emit("HDR_OFF_DIFAT_ARRAY", int(m.group(1)))
 offs = sorted(set(hdr_offsets("src/internal/alloc.rs")))
-if offs != [44, 68]: sys.exit("gen_consts: unexpected header offsets in alloc.rs: %r" % offs)
+if not {44, 68} <= set(offs): sys.exit("gen_consts: header offsets 44/68 no longer written in alloc.rs: %r" % offs)
 emit("HDR_OFF_NUM_FAT", 44); emit("HDR_OFF_FIRST_DIFAT", 68)
 offs = sorted(set(hdr_offsets("src/internal/minialloc.rs")))
-if offs != [60, 64]: sys.exit("gen_consts: unexpected header offsets in minialloc.rs: %r" % offs)
+if not {60, 64} <= set(offs): sys.exit("gen_consts: header offsets 60/64 no longer written in minialloc.rs: %r" % offs)
 emit("HDR_OFF_FIRST_MINIFAT", 60); emit("HDR_OFF_NUM_MINIFAT", 64)
 offs = sorted(set(hdr_offsets("src/internal/directory.rs")))
-if offs != [40]: sys.exit("gen_consts: unexpected header offsets in directory.rs: %r" % offs)
+if 40 not in offs: sys.exit("gen_consts: header offset 40 no longer written in directory.rs: %r" % offs)
 emit("HDR_OFF_NUM_DIR", 40)
 di = rd("src/internal/directory.rs")
 offs = sorted(set(int(x) for x in re.findall(r"seek_within_dir_entry\(\s*\w+,\s*(\d+)\)", di)))
-offs = [o for o in offs if o != 0]
-if offs != [68, 72, 76]: sys.exit("gen_consts: unexpected dir entry field offsets: %r" % offs)
+for need in (68, 72, 76):
+    if need not in offs: sys.exit("gen_consts: dir entry link offset %d is no longer written by directory.rs: %r" % (need, offs))
+out.append("Definition DE_FIELD_WRITE_OFFSETS : list N := [%s]." % "; ".join(str(o) for o in offs))
 emit("DE_OFF_LEFT", 68); emit("DE_OFF_RIGHT", 72); emit("DE_OFF_CHILD", 76)
 body = "(* GENERATED by tools/gen_consts.py from /repo/src — do not edit. *)\nFrom Coq Require Import List NArith.\nImport ListNotations.\nOpen Scope N_scope.\n\n" + "\n".join(out) + "\n"
 old = open(OUT).read() if os.path.exists(OUT) else None
